@@ -38,7 +38,8 @@ def gen_attr_case(rng, i):
         names = [names[0]] * 2 + names[2:]
         mal = "duplicate-name"
     elif r < .26:
-        names = names + [11] if rng.random() < .5 else names[:-1] or [0, 1]
+        # one name too many, one too few, or none at all (D63: an empty name tuple slipped through `if names:`)
+        names = gen.choice(rng, [names + [11], names[:-1] or [0, 1], [], names[:-1] or [0, 1]])
         mal = "name-width"
     # coefficient arrays of different dtypes in one triple (the narrower one first as often as not)
     col_dtypes = None
